@@ -165,6 +165,17 @@ func c29() {
 	r.Assume("manager restarts are performed with no command in flight (the real daemon holds a lock and stops serving before shutting the manager down); commands run concurrently with each other and with the run loops")
 	r.Assume("a paused interval is judged only when no Resume overlaps the Pause call (otherwise the order of the two is not observable); a Reset is judged only when no other command on the session overlaps it")
 	r.Assume("Poll calls are not counted as activity of a paused session (the property names scanning, staging and transitions; Connect is included as the precondition of all three)")
+	r.Note("sensitivity_mutants_caught_in_quick_tier", []string{
+		"controller.go: halt() without '<-c.done' -> worker crash (close of nil channel) and race reports",
+		"controller.go: run loop abandons synchronize on cancellation -> a-executing-when-pause-returned (Stage/Supply/Scan), a-started-while-paused, d-call-after-terminate (92 violations)",
+		"controller.go: loadSession starts the loop for a paused session -> a-started-while-paused (Connect/Scan, origins Restart/Pause/Create), 490 violations",
+		"controller.go: pending flush request answered at the end of the running cycle -> c-flush-without-full-scan (136)",
+		"controller.go: flush request answered before staging/transitions -> c-flush-before-cycle-completed (12)",
+		"controller.go: archive not removed on terminate -> d-files-left-after-terminate concurrent_reset=false (75)",
+		"controller.go: reset leaves the archive of a running session -> e-history-not-cleared-by-reset (72)",
+		"controller.go: pause flag not persisted -> b-pause-flag-changed-in-restart, a-started-while-paused (425)",
+		"fix 1b06d96 reversed (reset ignores c.disabled) -> d-files-left-after-terminate concurrent_reset=true, 5-11 per quick run at seeds 1,2,3,7,42",
+	})
 	controls := []string{"pause_intervals_judged", "flush_wait_succeeded", "terminates_judged", "restarts_with_paused_sessions", "resets_judged", "calls:Stage", "calls:Supply", "calls:Transition", "calls:Scan"}
 	for _, c := range controls {
 		if r.Counter(c) == 0 {
